@@ -118,9 +118,21 @@ Definition group_blocks (bs : Z) (G : list elem) : list (pos * list elem) :=
 Definition in_span (bs : Z) (sp : Z * Z * Z * Z) (e : elem) : bool :=
   let b := blockOf (bs3 bs) (e_pos e) in
   let '(z, y, x0, x1) := sp in (pZ b =? z) && (pY b =? y) && (x0 <=? pX b) && (pX b <=? x1).
-(* GetROISynapses appends the elements of every span's blocks (no screening by voxel) *)
+(* An ROI is stored as one key per span (z, y, x0, length): posting the same span twice stores it once.
+   GetROISynapses appends the elements of every stored span's blocks (no screening by voxel), so spans
+   that overlap without being identical list the elements of the overlap once per span. *)
+Definition span_eqb (a b : Z * Z * Z * Z) : bool :=
+  let '(z, y, x0, x1) := a in let '(z', y', x0', x1') := b in (z =? z') && (y =? y') && (x0 =? x0') && (x1 =? x1').
 Definition roi_elems (bs : Z) (spans : list (Z * Z * Z * Z)) (G : list elem) : list elem :=
-  canon (flat_map (fun sp => filter (in_span bs sp) G) spans).
+  canon (flat_map (fun sp => filter (in_span bs sp) G) (nodupb span_eqb spans)).
+(* what the property asks of the query: the SET of elements lying in the region *)
+Fixpoint dedup_adj (l : list elem) : list elem :=
+  match l with
+  | x :: ((y :: _) as r) => if elem_eqb x y then dedup_adj r else x :: dedup_adj r
+  | _ => l
+  end.
+Definition roi_set (bs : Z) (spans : list (Z * Z * Z * Z)) (G : list elem) : list elem :=
+  canon (filter (fun e => existsb (fun sp => in_span bs sp e) spans) G).
 Definition idxs : list N := [n_sz_PostSyn; n_sz_PreSyn; n_sz_Gap; n_sz_Note; n_sz_AllSyn].
 (* ranking used by top / threshold: size descending, then label ascending; zero counts are absent *)
 Fixpoint insert_rank (x : N * Z) (l : list (N * Z)) : list (N * Z) :=
@@ -229,7 +241,7 @@ Definition spec_item (bs ext : Z) (tb : list obsitem) (o : obsitem) : nat :=
   | ORegion off size es => if elems_eqb es (canon (filter (fun e => in_box off size (e_pos e)) G)) then O else 7%nat
   | OBlocks off size bl =>
     if blocks_eqb bl (filter (fun be => box_blocks bs off size (fst be)) (canon_blocks (group_blocks bs G))) then O else 7%nat
-  | ORoi spans es => if elems_eqb es (roi_elems bs spans G) then O else 7%nat
+  | ORoi spans es => if elems_eqb (dedup_adj (canon es)) (roi_set bs spans G) then O else 7%nat
   | OTop i n r => if lz_eqb r (top_of (rank (cf i) (filter (fun l => negb (l =? 0)%N) labels)) n) then O else 6%nat
   | OThr i thr off n r => if lz_eqb r (thr_of (rank (cf i) (filter (fun l => negb (l =? 0)%N) labels)) thr off n) then O else 6%nat
   end.
